@@ -82,7 +82,7 @@ def _variants(self_classes, only=None, extra_ensures=None):
 
 
 PLAIN = ['IntegerParameterType', 'FloatParameterType', 'StringParameterType', 'BinaryParameterType',
-         'EnumeratedParameterType', 'BooleanParameterType']
+         'EnumeratedParameterType', 'BooleanParameterType', 'AbsoluteTimeParameterType', 'RelativeTimeParameterType']
 _RAW_INT = ("int_decode(bits(packet.raw_data, old(packet.raw_data.pos), self.encoding.size_in_bits), "
             "self.encoding.size_in_bits, self.encoding.encoding, self.encoding.byte_order)")
 _INB = ("(old(packet.raw_data.pos) + self.encoding.size_in_bits <= 8 * len(packet.raw_data) and "
